@@ -154,6 +154,28 @@ func genC02(ctx *Ctx) {
 			}
 		}
 	}
+	// scale (direct oracle only): deep and long sentences, and deep non-sentences (one bracket missing, one too many)
+	{
+		v := func(n string) *Tree { return &Tree{Kind: "var", Text: n} }
+		names := []string{"a", "b", "c"}
+		for _, D := range []int{40, 130, 260, 520} {
+			p := &printer{rnd: ctx.Rnd, parens: 0}
+			right, left, call := v("a"), v("a"), v("a")
+			for i := 0; i < D; i++ {
+				right = &Tree{Kind: "bin", Op: []string{"-", "AND", "*", "IN"}[i%4], Args: []*Tree{v(names[i%3]), right}}
+				left = &Tree{Kind: "bin", Op: []string{"+", "OR", "*", "<="}[i%4], Args: []*Tree{left, v(names[i%3])}}
+				call = &Tree{Kind: "call", Text: "f", Args: []*Tree{v("c"), call}}
+			}
+			for _, t := range []*Tree{right, left, call} {
+				text := p.at(t, 0)
+				ctx.OracleOnly(exprInput(text, sx.L(), t), fmt.Sprintf("scale: sentence of depth or length %d", D))
+			}
+			deep := strings.Repeat("(", D) + "a" + strings.Repeat(")", D)
+			ctx.OracleOnly(exprInput(deep, sx.L(), v("a")), fmt.Sprintf("scale: %d redundant parentheses", D))
+			ctx.OracleOnly(exprInput(deep+")", sx.L(sx.S("expect-reject")), nil), fmt.Sprintf("scale: %d parentheses, one too many", D))
+			ctx.OracleOnly(exprInput("("+deep, sx.L(sx.S("expect-reject")), nil), fmt.Sprintf("scale: %d parentheses, one missing", D))
+		}
+	}
 	// a few special inputs: empty, blanks, unknown symbols, empty quoted identifier
 	for _, s := range []string{"", "   ", "a $ b", "a ? 1", "\"\"", "a + \"\"", "#", "a.b", "1 2", "f(,)", "f(a,,b)", "a[1][2]", "NOT NOT a", "a = NOT b", "- - a", "a IS NULL IS NULL", "f(a,)", "@", "ſ", "ıs",
 		"a lıke b", "a ıs null", "a ıN b", "x NOT Lıke y", "a iſ nULL", "not falſe", "a LI\u212aE b", "a \u212a b", "nULL ıſ nULL", "a xOR b", "truE aND falSe", "a L\u0130KE b",
@@ -265,6 +287,25 @@ func runC02(in sx.SX) (sx.SX, string) {
 	// direct oracle: the independent recogniser of the grammar
 	kinds, kindIdx, lexOK := refKindsIdx(given)
 	var derivs []string
+	if len(kinds) > 150 {
+		// scale cases: the reference recogniser enumerates derivations and is not meant for thousands of tokens; the generator
+		// says what the input is (a sentence printed from a tree, or a sentence with one bracket too many / missing)
+		switch sx.Text(l[2]) {
+		case "((101 120 112 101 99 116 45 114 101 106 101 99 116))": // "expect-reject"
+			if err == nil {
+				return renderRPN(p), "a long token sequence that is not a sentence of the grammar was accepted"
+			}
+		default:
+			if treeFromSX(l[3]) != nil && err != nil {
+				return sx.L(sx.I(1)), "a long sentence printed from a syntax tree was rejected: " + err.Error()
+			}
+		}
+		if err != nil {
+			code, _ := errCode(err)
+			return sx.L(sx.I(code)), fail
+		}
+		return renderRPN(p), fail
+	}
 	if lexOK {
 		derivs = refParse(kinds)
 	}
